@@ -247,6 +247,16 @@ thread_local! {
     pub static REPLY_GAS: RefCell<Vec<u64>> = const { RefCell::new(Vec::new()) };
 }
 
+thread_local! {
+    /// What each invocation found in `env.transaction` (part of the determinism transcripts only: no property
+    /// says what it has to be, only that it cannot differ between executions of the same history).
+    pub static ENV_TX: RefCell<Vec<Option<u32>>> = const { RefCell::new(Vec::new()) };
+}
+
+pub fn take_env_tx() -> Vec<Option<u32>> {
+    ENV_TX.with(|t| std::mem::take(&mut *t.borrow_mut()))
+}
+
 pub fn take_reply_gas() -> Vec<u64> {
     REPLY_GAS.with(|t| std::mem::take(&mut *t.borrow_mut()))
 }
@@ -338,6 +348,7 @@ fn interpret<C: Flavor, Q: CustomQuery>(
     let balance: Vec<Coin> = deps.querier.query_all_balances(env.contract.address.clone()).unwrap_or_default();
     let d = deps.as_ref();
     let probes: Vec<(String, String)> = script.probes.iter().map(|p| (run_probe(&d, &env, p), run_probe(&d, &env, p))).collect();
+    ENV_TX.with(|t| t.borrow_mut().push(env.transaction.as_ref().map(|x| x.index)));
     TRACE.with(|t| {
         t.borrow_mut().push(TraceEv {
             entry,
